@@ -21,7 +21,7 @@ H = SL.HOLE
 
 
 def plan(tier, seed):
-    groups = ['closures-for', 'closures-let', 'closure-store', 'partial', 'named', 'hof', 'hof-nested', 'sort', 'histories']
+    groups = ['closures-for', 'closures-let', 'closure-store', 'partial', 'named', 'hof', 'hof-nested', 'sort', 'histories', 'focus-refs']
     units = [{'group': g, 'ver': v} for g in groups for v in ('3.0', '3.1')]
     return {
         'units': units,
@@ -251,6 +251,8 @@ def run_unit(unit, tier, acc):
         check(ver, prog, {}, w, acc, g, 'recursion')
     elif g == 'sort':
         run_sort(ver, tier, w, acc, g)
+    elif g == 'focus-refs':
+        run_focus_refs(ver, tier, acc, g)
     elif g == 'histories':
         run_histories(ver, tier, w, acc, g)
 
@@ -290,6 +292,26 @@ def run_sort(ver, tier, w, acc, g):
                         d = 'not-stable'
                     acc.violation('C16|sort|%s' % d, '%s: %s with $s=%s' % (ver, src, sq), {'expected': exp, 'observed': repr(got)[:200]},
                                   {'ver': ver, 'group': 'sort', 'src': src, 's': sq, 'keyform': forms.index((src, key))})
+    # items that are equal and hash-equal in Python but distinct XDM values, ordered by a key that tells them apart
+    from decimal import Decimal as _D
+    heq = [1, 1.0, Fraction(1), 2, 2.0, True]
+    rank = ('sort($s, (), function($v) { if ($v instance of xs:boolean) then 0 else if ($v instance of xs:integer) then 3 '
+            'else if ($v instance of xs:decimal) then 2 else 1 })')
+
+    def rk(v):
+        return 0 if isinstance(v, bool) else 3 if isinstance(v, int) else 2 if isinstance(v, Fraction) else 1
+    for k in range(0, min(n, 4) + 1):
+        for t in itertools.permutations(heq, k):
+            sq = list(t)
+            exp = sorted(sq, key=rk)
+            got = SB.run_impl(ver, rank, {'s': sq}, w)
+            acc.ev()
+            acc.cmp()
+            acc.case(len(sq) > 1)
+            if not (got[0] == 'val' and SB.same_seq(exp, got[1])):
+                acc.violation('C16|sort|hash-equal-items', '%s: %s with $s=%s' % (ver, rank, SB.show(sq)),
+                              {'expected': SB.show(exp), 'observed': SB.show(got[1]) if got[0] == 'val' else repr(got)},
+                              {'ver': ver, 'group': 'sort', 'src': rank, 's': [repr(x) for x in sq]})
     # strings with the default and an explicit collation
     strs = ['b', 'a', 'B', 'ab']
     for k in range(0, min(n, 4) + 1):
@@ -305,6 +327,61 @@ def run_sort(ver, tier, w, acc, g):
                 if got != ('val', exp):
                     acc.violation('C16|sort|strings', '%s: %s with $s=%s' % (ver, src, sq), {'expected': exp, 'observed': repr(got)[:200]},
                                   {'ver': ver, 'group': 'sort-str', 'src': src, 's': sq})
+
+
+FOCUS_XML = '<r><a xml:lang="en" id="i1">x</a><b xml:lang="fr" id="i2">yy</b><c>zzz</c></r>'
+
+
+def run_focus_refs(ver, tier, acc, g):
+    """a named reference to a focus-dependent function captures the focus where it is created (XPath 3.0 3.1.6);
+    created under one context item, called under every other one, directly, through a variable, a partial
+    application and fn:for-each: must equal the direct call under the creation focus"""
+    import xml.etree.ElementTree as ET
+    from elementpath import XPathContext, ElementPathError
+    root = ET.fromstring(FOCUS_XML)
+    elems = ['a', 'b', 'c']
+    direct = {  # function reference -> (direct call form under the creation focus, call arguments)
+        'name#0': ('name()', ''), 'local-name#0': ('local-name()', ''), 'string#0': ('string()', ''),
+        'string-length#0': ('string-length()', ''), 'normalize-space#0': ('normalize-space()', ''),
+        'number#0': ('number()', ''), 'lang#1': ('lang("en")', '"en"'),
+        'position#0': ('position()', ''), 'last#0': ('last()', ''), 'base-uri#0': ('base-uri()', ''),
+        'has-children#0': ('has-children()', ''), 'path#0': ('path()', ''),
+    }
+
+    def run(src):
+        try:
+            r = SB.token(ver, src).evaluate(XPathContext(root=root))
+            acc.ev()
+            return ('val', [repr(x) for x in (r if isinstance(r, list) else [r])])
+        except ElementPathError as e:
+            acc.ev()
+            return ('err', (e.code or '').split(':')[-1])
+        except Exception as e:  # noqa
+            acc.ev()
+            return ('escape', type(e).__name__ + ':' + str(e)[:60])
+    for ref, (dcall, args) in direct.items():
+        for create in elems:
+            want = run('/r/%s/%s' % (create, dcall))
+            for call in elems:
+                forms = {
+                    'via-variable': 'let $f := /r/%s/%s return /r/%s/$f(%s)' % (create, ref, call, args),
+                    'called-twice': 'let $f := /r/%s/%s return (/r/%s/$f(%s), /r/%s/$f(%s))[2]' % (create, ref, call, args, create, args),
+                    'in-sequence': '(/r/%s/%s, 1)[1](%s)' % (create, ref, args.replace('.', '/r/' + create)) if args != '.' else None,
+                }
+                if args and args != '.':
+                    forms['via-partial'] = 'let $f := /r/%s/%s, $g := $f(?) return /r/%s/$g(%s)' % (create, ref, call, args)
+                for fam, src in forms.items():
+                    if src is None:
+                        continue
+                    got = run(src)
+                    acc.cmp()
+                    acc.case(create != call)
+                    same = got == want or (got[0] == 'err' and want[0] == 'err')
+                    acc.outcome('focus:' + ('ok' if same else 'bad'))
+                    if not same:
+                        acc.violation('C16|focus-refs|%s|%s' % (fam, ref), '%s: %s' % (ver, src),
+                                      {'expected (direct call %s under /r/%s)' % (dcall, create): want, 'observed': got},
+                                      {'ver': ver, 'group': 'focus-refs', 'src': src})
 
 
 def run_histories(ver, tier, w, acc, g):
@@ -375,8 +452,8 @@ def run_histories(ver, tier, w, acc, g):
 def replay(case, acc):
     w = SB.world()
     g = case['group']
-    if g in ('sort', 'sort-str', 'histories'):
-        run_unit({'ver': case['ver'], 'group': 'sort' if g.startswith('sort') else 'histories'}, 'quick', acc)
+    if g in ('sort', 'sort-str', 'histories', 'focus-refs'):
+        run_unit({'ver': case['ver'], 'group': 'sort' if g.startswith('sort') else g}, 'quick', acc)
         return
     env = {k: dec_seq(v, w) for k, v in case['env'].items()}
     check(case['ver'], dec_ast(case['ast'], w), env, w, acc, g, case['fam'])
